@@ -579,6 +579,10 @@ class ChildWorld:
                 f = system.make_dxdtf(U)
                 xs = state.convert(U).value
                 ev["dxdtf"] = [float(v) for v in f(0.0, list(xs))]
+                # the exported right-hand side is a function of (t, x) only: evaluate the same function object again,
+                # at another state and then at the first state once more
+                f(1.0, [2.0 * float(v) + 1.0 for v in xs])
+                ev["dxdtf_again"] = [float(v) for v in f(2.0, list(xs))]
         elif name == "apply_reaction":
             # ["apply_reaction", reaction index, position, n]: hand-applied reaction on the RDSystem; becomes the
             # initial state of the next set-up of this script
